@@ -282,3 +282,5 @@ def run(ctx):
     agreement(ctx, '3')
     panic_audit(ctx, '4')
     shared.replay_order(ctx, '5')
+    shared.eof_is_the_only_end_of_data(ctx, '6')            # empty / header-less files are recognised by UnexpectedEof on a complete-header read only
+    shared.record_goes_to_the_table_it_names(ctx, '46')      # an action is validated against the table it names
